@@ -403,10 +403,11 @@ class Effects:
                         else:
                             out.add(("this",))
                     elif r[0] == "f":
-                        # field of the callee's object: a write to the caller's object expression
+                        # field of the callee's object: a write to the caller's object expression; when that object is the
+                        # caller's own 'this' the field keeps its name
                         if "obj" in n:
                             rd = _root_decl(node(n["obj"]))
-                            out.add(rd if rd else ("unknown",))
+                            out.add(r if rd == ("this",) else (rd if rd else ("unknown",)))
                         else:
                             out.add(r)
                     elif r[0] == "p":
